@@ -14,7 +14,9 @@ META = {
              "bits incl. 0 and totals beyond 64, index/data encodings, a "
              "subset of the grid in a drawn store order, payloads and buffer "
              "strategy; non-trivial = >= 2 populated minishards or shards and "
-             "(proper subset or unsorted order); distinct by the whole case."),
+             "(proper subset or unsorted order); distinct by the whole case."
+             ' Also: infos that leave out default-valued sharding fields, '
+             'bytes / bytearray / flat memoryview payloads.'),
     "trusted_base": ["vlib/refs/sharded_spec.py reader/validator and "
                      "refs/morton.py, written from the specification"],
 }
